@@ -93,6 +93,9 @@ func cmdCheck(args []string) int {
 		return 2
 	}
 	outDir := filepath.Join(*vdir, "out", id)
+	if o := os.Getenv("VERIF_OUT"); o != "" { // debugging runs against a scratch tree beside a registered run
+		outDir = filepath.Join(o, id)
+	}
 	_ = os.RemoveAll(outDir)
 	_ = os.MkdirAll(filepath.Join(outDir, "replay"), 0o755)
 
